@@ -543,7 +543,8 @@ class RecordingRunner(_RealRunner):
 
 
 def purge_world_modules():
-    for k in [k for k in sys.modules if k == simrt.PKG or k.startswith(simrt.PKG + '.')]:
+    for k in [k for k in sys.modules
+              if k == simrt.PKG or k.startswith(simrt.PKG + '.') or k == simrt.ZZMOD]:
         del sys.modules[k]
     import importlib
     importlib.invalidate_caches()
